@@ -444,6 +444,9 @@ def gen_basis_cases(pid, what, seed, tier, lmax, count, extra, start_id, with_se
             n = max(n, 2)
             basis = [cg.shell(rng, rng.randint(0, min(lmax, 2)), K=rng.randint(1, 3), bits=bits,
                               cen=o if rng.random() < 0.6 else cg.add(o, cg.tiny_offset(rng))) for _ in range(n)]
+            # the two core-like shells have the SAME angular momentum (s in every other far case): their overlap is O(1)
+            # and carries (a + b)|A|^2 ~ 1e9 in any expression that does not work with A - B
+            basis[1]["l"] = basis[0]["l"] = 0 if d % 8 == 3 else basis[0]["l"]
             for s_ in basis[:2]:       # core-like shells: the tightest primitives the property allows for this l
                 cap = cg.exp_cap(s_["l"])
                 ex = [cg.exponent(rng, 0.3 * cap, cap, bits), cg.exponent(rng, 0.01 * cap, 0.05 * cap, bits), cg.exponent(rng, 0.5, 3.0, bits)]
@@ -504,7 +507,7 @@ def extras_for(pid, what):
             e["km"], e["dm"] = 0, 2
         elif what == "moment":
             far = rng.random()
-            if c.get("spread"):
+            if c.get("spread") or c.get("tail"):
                 far = 0.9
             if c.get("far") or c.get("near"):
                 far = 0.1
@@ -517,8 +520,9 @@ def extras_for(pid, what):
             e["origin"] = org
             n = rng.randint(1, 4)
             orders = [[rng.randint(0, 4) for _ in range(3)] for _ in range(n)]
-            if c.get("spread"):
+            if c.get("spread") or c.get("tail"):
                 orders.append(rng.choice([[4, 0, 0], [0, 4, 0], [0, 0, 4], [3, 1, 0]]))
+                orders.append([4, 4, 4])
             if rng.random() < 0.3:
                 orders.append([0, 0, 0])
             rng.shuffle(orders)
